@@ -14,8 +14,8 @@ CLAIMS = {
         design="7/C03",
     ),
     "C11": dict(
-        text="PARTIAL proof + monitored execution. Proved in Coq (C11_only_importerror): for EVERY byte string the model of load_module either returns or raises ImportError - size check, magic lookups (every table magic has a version tuple: obligation over the regenerated table), Dropbox path, header fields and every exception of the unmarshaller are inside the conversion. The real process is explored: every prefix, single-byte mutations, deletions/insertions of the smallest corpus file of each version, adversarial length/reference/nesting fields behind each header form, random bytes - outcome class, wall time < 10 s, and audit events (exec/compile/import/open-for-write/os mutators) recorded by sys.addaudithook; the model's outcome is compared on the same inputs.",
-        note="Trusted: Coq kernel; hand model coq/Model/LoadModule.v (which statements are inside the try) + correspondence; the audit-hook allow-list (traceback/linecache imports and traceback's own ast.parse of its frames). Not a theorem: termination of the reader for all inputs, memory/time of the real interpreter. Known finding D32 (host-magic fast path spends tens of seconds in CPython's marshal on a 2^31-1 tuple length).",
+        text="PARTIAL proof + monitored execution. Proved in Coq (C11_only_importerror): for EVERY byte string the model of load_module either returns or raises ImportError - size check, magic lookups (every table magic has a version tuple: obligation over the regenerated table), Dropbox path, header fields and every exception of the unmarshaller are inside the conversion; and (C11_reader_never_out_of_fuel) for every reader configuration and every byte string the reader model terminates with the fuel it is given (input length + 1) - each object consumes at least one byte, each loop is bounded by the bytes left - so no outcome of the model stands for 'gave up'. The real process is explored: every prefix, single-byte mutations, deletions/insertions of the smallest corpus file of each version, adversarial length/reference/nesting fields behind each header form, random bytes - outcome class, wall time < 10 s, and audit events (exec/compile/import/open-for-write/os mutators) recorded by sys.addaudithook; the model's outcome is compared on the same inputs.",
+        note="Trusted: Coq kernel; hand model coq/Model/LoadModule.v (which statements are inside the try) + correspondence; the audit-hook allow-list (traceback/linecache imports and traceback's own ast.parse of its frames). Not a theorem: memory and wall-clock time of the real interpreter. Known finding D32 (host-magic fast path spends tens of seconds in CPython's marshal on a 2^31-1 tuple length).",
         technique="Coq case-analysis proof over the exception plumbing + fault-injection exploration with audit hooks",
         design="7/C11",
     ),
